@@ -24,9 +24,14 @@ def keep():
     return set(json.load(open(KEEP_FILE))) - set(SPLICE_BASELINE)
 
 
+def keep_types():
+    """The structs / enums of the pinned tree: the rules know them by name, so they are never split into fields (N10)."""
+    return set(json.load(open(canon.ITEMS_FILE))["adts"])
+
+
 def program(cfg="dev", use_cache=True, repo=None):
     """Returns (Program, tree hash, facts dict (normalised), notes dict)."""
     f, h = extract.facts(cfg, use_cache=use_cache) if repo is None else extract.facts(cfg, use_cache=use_cache, repo=repo)
     f, canon_notes = canon.canonicalize(f)
-    f, norm_notes = normalize.normalize(f, keep())
+    f, norm_notes = normalize.normalize(f, keep(), keep_types())
     return facts.Program(f), h, f, {"canon": canon_notes, "normalize": norm_notes}
